@@ -109,9 +109,27 @@ def _attempt(VariablesDAG, names, anc, ctx, case, check_determinism=True, rng=No
         else:
             perm = perm[::-1]
         variables2 = {n: variables[n] for n in perm}
-        d_anc2 = {n: frozenset(sorted(anc[n], reverse=True)) for n in perm}
+        _state["attempts"] = _state.get("attempts", 0) + 1
+        plain_sets = _state["attempts"] % 2 == 0  # the dependencies written as ordinary (mutable) sets: same graph
+        d_anc2 = {n: (set if plain_sets else frozenset)(sorted(anc[n], reverse=True)) for n in perm}
         try:
             dag2 = VariablesDAG(variables2, direct_ancestors=d_anc2)
+            if plain_sets:
+                # the caller's definitions are an input: untouched, and usable for a second construction with the same result
+                ctx.count("definitions_given_as_plain_sets")
+                if {n: set(v) for n, v in d_anc2.items()} != {n: set(anc[n]) for n in names}:
+                    ctx.violation("dag/caller-definitions-modified", "constructing the graph modified the dependency sets passed in", case)
+                    return dag
+                if {n: set(v) for n, v in dag2.direct_ancestors.items()} != {n: set(anc[n]) for n in names}:
+                    ctx.violation("dag/closure-or-order-wrong", "direct dependencies held by the graph differ from the definitions", case)
+                    return dag
+                dag3 = VariablesDAG(variables2, direct_ancestors=d_anc2)
+                if dag3.sorted_variables_names != dag2.sorted_variables_names:
+                    ctx.violation("dag/order-not-deterministic", "second construction from the same definition objects gives another order", case)
+                    return dag
+        except ContractBroken as e:
+            ctx.violation("dag/closure-or-order-wrong", f"constructed graph misreports closure/order (definitions as {'plain sets' if plain_sets else 'frozensets'}): {e}", case)
+            return dag
         except Exception as e:
             ctx.violation("dag/order-dependent-refusal", f"same definitions in another insertion order raised {e!r}", case)
             return dag
